@@ -4,7 +4,7 @@ From Gst Require Import lib.QAux C12.Model C12.Spec C12.Proofs_enum C12.Proofs_l
 Import ListNotations.
 Local Open Scope Q_scope.
 
-Definition plain_sym (c : calc) : Prop := c = Vg \/ c = Mado \/ c = Order4.
+Definition plain_sym (c : calc) : Prop := c = Vg \/ c = Mado \/ c = Order4 \/ c = Rodo.
 
 Section BySample.
 Variables (cf : cfg) (d : dirp).
@@ -17,7 +17,7 @@ Hypothesis Hps0 : 0 <= d_psmin d.
 Hypothesis Hcodir : 0 < Qred (dot (d_codir d) (d_codir d)).
 
 Lemma asym_false : is_asym (c_calc cf) = false.
-Proof. destruct Hcalc as [E|[E|E]]; rewrite E; reflexivity. Qed.
+Proof. destruct Hcalc as [E|[E|[E|E]]]; rewrite E; reflexivity. Qed.
 
 (* one pair: the algorithm (isOK, getLagRank, _evaluate) adds exactly what the closed forms of the spec say *)
 Lemma pair_updates_spec means means' a b : pair_updates cf d means a b = spec_pair_updates cf d means' a b.
@@ -34,7 +34,7 @@ Proof.
   - assert (E : accepted_b d (geo_pair d a b) = true) by (apply HA; discriminate).
     rewrite E.
     destruct (lag_rank d (g_d2 (geo_pair d a b))) as [k|]; [|reflexivity].
-    unfold evaluate. destruct Hcalc as [Ec|[Ec|Ec]]; rewrite Ec; reflexivity.
+    unfold evaluate. destruct Hcalc as [Ec|[Ec|[Ec|Ec]]]; rewrite Ec; reflexivity.
 Qed.
 
 Lemma flat_map_map {A B C} (f : A -> B) (g : B -> list C) l : flat_map g (map f l) = flat_map (fun x => g (f x)) l.
